@@ -119,6 +119,166 @@ claim('C19',
       "Rocq proof of a verified checker + vm_compute over the regenerated IR of the whole public API; dynamic validation",
       "DESIGN.md 4/C19")
 
+claim('C01',
+      "Theorems over the reals about ONE iteration of the compiled kernel's loop as GENERATED from /repo (step3d_*: 15 "
+      "outputs) against the hand-written hub specification Spec/NavODE.v (navigation ODE on the rotating WGS-84 "
+      "ellipsoid with Somigliana gravity): step with dt=0 and zero increments is the identity; for every state with "
+      "|lat|<90, alt >= -1e6, every rate/force and any increment curves with the right first derivative, each of the 15 "
+      "components of dt -> step has is_derive at 0 equal to the ODE right-hand side (first-order consistency: no error "
+      "component that does not vanish with the interval); the generated increment formulas of both sensor types have "
+      "derivative (omega, f); abstract one-step convergence theorem (discrete Gronwall) and 'error <= halving change / "
+      "(1-q)'. Partial: the uniform stability/local-error constants of the concrete kernel and existence of the exact "
+      "flow are hypotheses of strapdown_converges_partial; the large-angle Rodrigues branch is covered by C17. "
+      "Supported on the implementation by a finite-difference consistency test of the compiled kernel and a halving test "
+      "against an independent DOP853 reference.",
+      COMMON_NOTE + "Translator validated each run; kernel loop = fold of the one-step map checked by a two-increment trace.",
+      "Rocq proof over generated real-number model (translator: symbolic tracing) against a hand-written ODE spec; Coquelicot is_derive",
+      "DESIGN.md 4/C01")
+
+claim('C02',
+      "Theorems by induction over the operation list about the hand-written executable model Model/Integrator.v of "
+      "strapdown.Integrator (buffers with explicit garbage and capacity, every index computation kept, out-of-bounds "
+      "access = explicit failure), for ANY deterministic kernel step, any initial capacity >= 1 and both altitude modes: "
+      "all writes in bounds; any chunking interleaved with predicts gives the single-shot trajectory with index = start "
+      "time followed by each increment time once; predict = next appended row and unobservable; set_pva restart = fresh "
+      "integrator; integrate returns previous last row + appended rows. Closed under the global context. The premise "
+      "'row j+1 depends only on row j, increment, dt, flag' is discharged by the translator (garbage-buffer trace, "
+      "two-increment fold check). The model is tied to the code by a correspondence run on free-algebra rows "
+      "(provenance of every row evaluated with single-step kernel calls and compared bit for bit, tobytes) with a "
+      "bounds guard around the real kernel.",
+      COMMON_NOTE + "Model tie: generator quality bounds the correspondence (grammar of histories incl. chunks straddling "
+      "the capacity, INITIAL_SIZE in {1,2,3,5,8,10000}).",
+      "Rocq proof (induction over call histories) on hand-written executable model + vm_compute provenance correspondence",
+      "DESIGN.md 4/C02")
+
+claim('C03',
+      "Theorems over the reals about sim._compute_increment_readings and the straight-line kinematics of sim.generate_imu "
+      "as GENERATED from /repo: a body at rest at any lat in [-90,90], lon, alt and attitude senses exactly Earth rate and "
+      "the reaction to gravity (second derivative of the inertial position minus gravitation_ecef resolved in NED = "
+      "(0,0,-g); frame rate = rate_n); the 8+8 polynomial coefficients are exactly those of the body-rate / specific-"
+      "force polynomials and the readings their exact integrals (is_RInt); the accelerometer formula is the algebraic "
+      "inverse of the velocity equation of Spec/NavODE.v and the gyro formula of its attitude equation. Partial: "
+      "convergence of the scipy splines to the true derivatives, agreement of the three input forms and the closed loop "
+      "through the Integrator are supported by halving tests on the implementation against an independent oracle only.",
+      COMMON_NOTE + "CubicHermiteSpline replaced by its contract while tracing; RotationSpline enters through its "
+      "documented coefficient layout.",
+      "Rocq proof over generated real-number model (translator: symbolic tracing); Coquelicot is_derive / is_RInt",
+      "DESIGN.md 4/C03")
+
+claim('C05',
+      "Theorems over the reals about transform_to_output / transform_to_internal / _transform_3d_2d / correct_pva / "
+      "perturb_pva / compute_state_difference as GENERATED from /repo (np.linalg.inv as a primitive specified as 'an "
+      "inverse'): explicit inverse of T_out when cos pitch != 0, left-inverse statements in 3D and 2D; d/d eps at 0 of "
+      "state_diff(pva, correct_pva(pva, eps x)) = T_out(pva) x for all 9 components (is_derive; |lat|<90, |pitch|<90, "
+      "roll/heading off the +-180 cut); perturb-then-correct first-order identity; in 2D the down and VD rows are "
+      "literally zero and correct_pva returns alt and VD unchanged for every x. Partial: the size of the second-order "
+      "remainder is supported numerically (residual-order test) only.",
+      COMMON_NOTE + "scipy Rotation stubs (from_rotvec = closed-form exponential map, as_euler via atan2) validated each run.",
+      "Rocq proof over generated real-number model (translator: symbolic tracing); Coquelicot is_derive, field",
+      "DESIGN.md 4/C05")
+
+claim('C06',
+      "Theorems over the reals about the three Measurement classes' compute_matrices (z, H, R) as GENERATED from /repo "
+      "in 16 configurations (class x altitude mode x lever arm none/given x rates present/absent): d/d eps at 0 of "
+      "z(correct_pva(pva, eps x)) = -H x for every row and every x, including the C_nb l and C_nb (omega x l) terms; "
+      "z = predicted - measured in NED metres / m/s; R = sd^2 I of matching size; rates without lever arm = plain model. "
+      "The Position Jacobian is exact at measured = predicted (mid-point radii make it O(|z| tan lat / R) off elsewhere; "
+      "stated). Absent time -> None and zero residual of noise-free simulated measurements are checked on the "
+      "implementation (finite-difference Jacobians, independent ECEF oracle).",
+      COMMON_NOTE + "scipy Rotation stubs validated each run.",
+      "Rocq proof over generated real-number model (translator: symbolic tracing); Coquelicot is_derive",
+      "DESIGN.md 4/C06")
+
+claim('C09',
+      "Theorems (closed under the global context) about the hand-written executable cursor/event model "
+      "Model/FeedbackSched.v of run_feedback_filter over rational time stamps, for EVERY schedule (irregular/gapped IMU "
+      "times, arbitrary measurement stamps of any number of sensors, shared stamps, any step) and with the float "
+      "expression time + time_step replaced by an adversarial oracle (only t <= add_step t assumed): termination, every "
+      "increment integrated exactly once in order (trajectory index = t0 :: increment times), every stamp in [t0, t_end) "
+      "gives exactly one innovation per owning sensor in time order and none outside, records strictly increasing and a "
+      "subset of the trajectory times, no empty batch; the pinned (pre-fix) loop is refuted with its two witnesses. The "
+      "model is tied to the code by an exact comparison of event traces (trajectory index, integrate batches, "
+      "per-sensor innovation index, table indices) on generated schedules with a back-edge watchdog. Numerical state "
+      "(finiteness of tables) is asserted on the generated schedules only.",
+      COMMON_NOTE + "Model tie: generator quality bounds the correspondence (categories and counts in the evidence); "
+      "numpy sort/unique/searchsorted and pandas label lookup are trusted.",
+      "Rocq proof (induction, measure) on hand-written executable scheduling model + vm_compute event-trace correspondence",
+      "DESIGN.md 4/C09")
+
+claim('C10',
+      "Theorems (closed under the global context) about the hand-written executable cursor/event model "
+      "Model/FeedforwardSched.v of run_feedforward_filter, for EVERY schedule and ANY outcome of time + time_step (no "
+      "hypothesis on the oracle): termination, result rows a strictly increasing subset of the input times starting at "
+      "the first, step bound b - a <= max(time_step, local gap) on the observable tables, every stamp in [t0, t_end) "
+      "used exactly once in time order, positive propagation intervals; the loop without the advance guard is refuted. "
+      "Tied to the code by exact comparison of event traces on generated schedules with a watchdog (non-termination is "
+      "reported as a violation).",
+      COMMON_NOTE + "Model tie: generator quality bounds the correspondence; numerical state outside the model.",
+      "Rocq proof (induction, measure) on hand-written executable scheduling model + vm_compute event-trace correspondence",
+      "DESIGN.md 4/C10")
+
+claim('C13',
+      "Theorems: (a) about the 2D branch of the kernel as GENERATED from /repo: step2d_VD = 0 and step2d_alt = alt - "
+      "(1/2 (VD + 0)) dt for all inputs, hence VD = 0 -> altitude unchanged; (b) by induction over call histories on the "
+      "Integrator model instantiated with the generated step: for every history every row has VD = 0 and altitude = the "
+      "most recently supplied one (constructor and set_pva zero VD); (c) about the generated 2D error model: DR3/DV3 "
+      "rows of the embedding, down and VD rows of the output transform are zero (so the reported sd is 0 for every "
+      "covariance), correct_pva keeps alt and VD, 2D position/velocity Jacobians have two rows; (d) feedback-style "
+      "histories keep the invariant. Bit-exactness in binary64 (alt - 0*dt == alt), the filters' use of set_pva and the "
+      "measurement shapes are checked on the implementation (tobytes equality, exact zeros) on generated histories and "
+      "small filter runs.",
+      COMMON_NOTE + "Model tie as in C02.",
+      "Rocq proof over generated real-number model + induction on the integrator model; implementation-side exactness checks",
+      "DESIGN.md 4/C13")
+
+claim('C17',
+      "Theorems over the reals about mat_from_rotvec (both branches), mat_from_rph / mat_to_rph and _phi_to_delta_rph as "
+      "GENERATED from /repo: on |v|^2 > 1e-6 the matrix is orthonormal with det 1, fixes v, has trace 1 + 2 cos|v| and "
+      "skew part (sin|v|/|v|)[v x], and equals the closed-form exponential map entry by entry; on |v|^2 <= 1e-6 every "
+      "entry is within 1e-20 of it (Interval), M(0) = I, the branches agree to 1e-20 at the threshold; the rph matrix is "
+      "Rz(h)Ry(p)Rx(r), a proper rotation, with the stated nose/wing conventions; round trip exact on the principal "
+      "range and modulo 360 otherwise for |pitch| < 90; the Euler-error matrix satisfies d/d eps C(rph + eps T phi) = "
+      "-[phi x] C for cos pitch != 0 with injective partials. Trusted: scipy Euler conventions (stub validated each run); "
+      "Rodrigues closed form = exp power series is classical, not formalised; binary64 rounding not modelled "
+      "(checked numerically against scipy expm at 500 eps).",
+      COMMON_NOTE + "Interval proofs additionally depend on the primitive-integer interface (PrimInt63/Uint63 axioms of the "
+      "standard library).",
+      "Rocq proof over generated real-number model (translator: symbolic tracing); field/ring identities, Interval, Coquelicot",
+      "DESIGN.md 4/C17")
+
+claim('C11',
+      "Theorems: (a) for EVERY schedule the fold of the feedforward event trace (Model/FeedforwardSched.v + data-flow "
+      "model Model/FilterFlow.v) equals the textbook Kalman recursion on the filter's time grid (corrections of all "
+      "epochs of a grid row in time order and sensor-list order, record after corrections and before propagation, "
+      "propagation chain from the first to the last row), with every correction the conditional-Gaussian update of the "
+      "GENERATED kalman.correct on H_full = [H|0|0] and every propagated covariance symmetric PSD; (b) block layout of "
+      "P0, F, G, q, Q for all block sizes, proved equal to the matrix terms GENERATED from the live "
+      "_initialize_covariance / _compute_error_propagation_matrices; (c) compensation and sd formulas GENERATED from "
+      "_compute_feedforward_result invert sim.perturb_pva's error definition; (d) for any number of steps and any "
+      "dimensions, with positive-definite P0, R_k, Qd_k, the recursion's (x_N, P_N) is the solution of the one-shot "
+      "weighted-least-squares (Gauss-Markov) problem of the stacked system (MathComp, closed under the global context). "
+      "Partial: optimality for the singular Qd of the real system and floating-point agreement are supported by an "
+      "independent one-shot square-root Gauss-Markov solve on the implementation (all result fields, margin >= 1000x) "
+      "and a bit-exact call-trace correspondence.",
+      COMMON_NOTE + "Matrix tracer gen_mx.py and tools/reg/c11.py validated each run on 24 model configurations.",
+      "Rocq/MathComp proof (induction over schedules and steps) on generated matrix terms + data-flow model; call-trace correspondence",
+      "DESIGN.md 4/C11")
+
+claim('C12',
+      "Theorems (closed under the global context) composing the C09 scheduling model, the C02 integrator model and the "
+      "C14 estimate state machine: if no stamp lies in [t0, t_end) the feedback loop emits no innovation / set_pva / "
+      "update and its integrate batches concatenate to the whole increment table, hence (integrate_chunks) the "
+      "trajectory equals a single integrate for any kernel, mode, step and capacity; correct_increments with reset "
+      "estimates is the identity on exact numbers; a run whose first estimate operation is reset is independent of the "
+      "prior estimate state (and the reset is necessary). Partial: float exactness of v - 0.0*dt and of the solve with "
+      "the identity matrix is checked byte for byte on the implementation (tobytes identity against "
+      "Integrator.integrate with polluted model objects); the first-order agreement with the feedforward filter is "
+      "proved only for one cycle under two exactness hypotheses (feedback_first_order_partial) and otherwise supported "
+      "by an error-scale sweep; re-run identity checked bit for bit.",
+      COMMON_NOTE + "Model ties as in C02, C09, C14.",
+      "Rocq proof composing the scheduling, integrator and estimate-state models; bit-exact implementation checks",
+      "DESIGN.md 4/C12")
+
 REASON_TODO = "check not built yet (framework under construction; see DESIGN.md section 4 for the planned proof)"
 
 
